@@ -39,7 +39,53 @@ func jsMasker(cur []byte) func(int) bool {
 	}
 }
 
+// runC03Deep is the "absurdly deep but well-formed input" scenario: the stream readers build their
+// trees from tokens, one node per level, and everything downstream walks the tree recursively.
+func runC03Deep(c *Ctx) []Violation {
+	format := c.T.Pick("c03.deep.format", "json", "xml")
+	depth := []int{12000, 300000}[c.T.Intn("c03.deep.depth", 2)]
+	target := c.T.Pick("c03.deep.target", ".", "/*")
+	var in strings.Builder
+	if format == "json" {
+		in.WriteString(strings.Repeat("[", depth) + strings.Repeat("]", depth))
+	} else {
+		in.WriteString(strings.Repeat("<a>", depth) + strings.Repeat("</a>", depth))
+	}
+	out := `{"custom_func": {"name": "copy"}}`
+	if c.T.Bool("c03.deep.const") {
+		out = `{"object": {"k": {"const": "k"}}}`
+	}
+	schema := `{"parser_settings": {"version": "omni.2.1", "file_format_type": "` + format + `"}, "transform_declarations": {"FINAL_OUTPUT": {"xpath": "` + target + `", ` + out[1:] + `}}`
+	w := &world.World{Name: fmt.Sprintf("deep:%s(depth=%d)", format, depth), Format: format, Schema: []byte(schema), Input: []byte(in.String())}
+	env := baseEnv(c)
+	env.Apply()
+	plan := simio.DrawPlan(c.T, w.Input)
+	rd := simio.NewReader(w.Input, plan)
+	tr := run.Drive(w, rd, run.Opts{MaxReads: 8, KeepOnlyLast: 2})
+	c.Events += int64(rd.Stats.Reads + len(tr.Entries))
+	c.Count("world.deep-nesting", 1)
+	c.Nontrivial = true
+	c.SigMix(uint64(depth))
+	c.Ev("c03-deep", format, depth, len(tr.Entries))
+	c.Sample = map[string]interface{}{"world": w.Name, "results": len(tr.Entries)}
+	if tr.SchemaErr != "" || tr.SchemaPanic != "" {
+		panic("harness: deep-nesting schema rejected: " + tr.SchemaErr + tr.SchemaPanic)
+	}
+	for i, e := range tr.Entries {
+		if e.Class == run.ClsPanic {
+			return []Violation{viol("C03.panic-read", format+": Read panics on a deeply nested input: "+clipS(e.Err, 160), "world: "+w.Name, fmt.Sprintf("Read #%d", i+1), panicSite(e.Stack))}
+		}
+	}
+	if tr.HitReadLimit {
+		return []Violation{viol("C03.unbounded", format+": no terminal result on a deeply nested input", "world: "+w.Name)}
+	}
+	return nil
+}
+
 func runC03(c *Ctx) []Violation {
+	if c.T.Chance("c03.deep", 1, 250) {
+		return runC03Deep(c)
+	}
 	var w *world.World
 	if c.T.Chance("c03.numeric-filter", 1, 12) {
 		// own scenario family of an open known finding: a target filter that compares with a number
